@@ -251,6 +251,47 @@ func main() {
 					viol(fmt.Sprintf("proof-accepts-other-sibling:n=%d", n), fmt.Sprintf("proof verifies with an altered sibling hash (n=%d subset=%b)", n, mask), c)
 				}
 			}
+			// a foreign leaf smuggled in under a repeated index: the index of query j is listed twice, once with the member
+			// and once with foreign data (either order); sibling hashes as generated, with one of them repeated, or all
+			// of them repeated (what a second walk up the same path would consume). No such proof may verify.
+			for j := range q {
+				for order := 0; order < 2; order++ {
+					tq := [][]byte{}
+					ti := []uint64{}
+					for x := range q {
+						if x == j {
+							pair := [][]byte{ref.RMTLeaf([]byte("other data")), q[x]}
+							if order == 1 {
+								pair[0], pair[1] = pair[1], pair[0]
+							}
+							tq = append(tq, pair...)
+							ti = append(ti, proof.Idxs[x], proof.Idxs[x])
+							continue
+						}
+						tq = append(tq, q[x])
+						ti = append(ti, proof.Idxs[x])
+					}
+					sibVariants := [][][]byte{proof.SiblingHashes}
+					for d := range proof.SiblingHashes {
+						v := append([][]byte{}, proof.SiblingHashes[:d+1]...)
+						v = append(v, proof.SiblingHashes[d])
+						v = append(v, proof.SiblingHashes[d+1:]...)
+						sibVariants = append(sibVariants, v)
+					}
+					dbl := [][]byte{}
+					for _, sh := range proof.SiblingHashes {
+						dbl = append(dbl, sh, sh)
+					}
+					sibVariants = append(sibVariants, dbl, append(append([][]byte{}, proof.SiblingHashes...), proof.SiblingHashes...))
+					for _, sv := range sibVariants {
+						tp := &rmt.Proof{Size: proof.Size, Idxs: ti, SiblingHashes: sv}
+						tampered++
+						if acc := false; vlib.Catch(func() { acc = rmt.VerifyProof(tq, tp, root) }) == "" && acc {
+							viol("proof-accepts-foreign-leaf-under-repeated-index", fmt.Sprintf("proof verifies for a query list that names foreign data at the index of leaf %d (n=%d subset=%b, index listed twice, foreign %s, %d sibling hashes instead of %d)", pos[j], n, mask, map[int]string{0: "first", 1: "second"}[order], len(sv), len(proof.SiblingHashes)), c)
+						}
+					}
+				}
+			}
 			{
 				oroot := append([]byte{}, root...)
 				oroot[31] ^= 1
@@ -325,7 +366,7 @@ func main() {
 	r.Add("updates_checked", updates)
 	r.Set("evaluations", evals+tampered)
 	r.Set("distinct_nontrivial", nontrivial)
-	r.Set("rule", fmt.Sprintf("every list length 0..%d (root, batch root, size, append path, reload, reload+append, prediction from the append path), right witnesses at every position for n<=70 and every 17th n, every non-empty leaf subset for n<=%d (proof verifies; every single altered query hash / sibling / root fails), updates through every subset for n<=%d; distinct by construction; non-trivial = n>0 / interior witness positions / verified proofs", N, S, U))
+	r.Set("rule", fmt.Sprintf("every list length 0..%d (root, batch root, size, append path, reload, reload+append, prediction from the append path), right witnesses at every position for n<=70 and every 17th n, every non-empty leaf subset for n<=%d (proof verifies; every single altered query hash / sibling / root fails, and so does every proof that lists a queried index twice with foreign data beside the member, with the generated, singly-repeated and doubled sibling lists), updates through every subset for n<=%d; distinct by construction; non-trivial = n>0 / interior witness positions / verified proofs", N, S, U))
 	r.Sample(caseT{N: 5, Subset: 0b10110, What: "proof for leaves {1,2,4} of 5, each query hash / sibling / root altered in turn"})
 	r.Sample(caseT{N: 37, What: "root, append path, reload, prediction, all 38 witness positions"})
 	r.Finish()
